@@ -285,8 +285,9 @@ class VRowText:
 class VCombs2:
     """all pairs (a, b) with lo <= a < b < hi, in itertools.combinations order; iterated as two nested range loops"""
 
-    def __init__(self, lo, hi, pred=None):
+    def __init__(self, lo, hi, pred=None, shift=0):
         self.lo, self.hi, self.pred = lo, hi, pred        # pred: VSpecPred keeping only the pairs it holds for (a filtered enumeration)
+        self.shift = shift                                # the pairs are handed out as (a + shift, b + shift): ((u-1, v-1) for (u, v) in pairs)
 
 
 class VSpecPred:
@@ -1585,6 +1586,7 @@ class Engine:
                 return None
             levels = []                 # (target name, iter ast) outermost first
             guards = {}                 # level index -> guard expression wrapped around everything inside that level
+            prefixes = {}               # level index -> statements executed first inside that level (inside its guard)
 
             def add_value(f, target):
                 self.nest_n = getattr(self, 'nest_n', 0) + 1
@@ -1594,13 +1596,18 @@ class Engine:
                     if not (isinstance(target, ast.Tuple) and len(target.elts) == 2 and all(isinstance(x, ast.Name) for x in target.elts)):
                         raise Unsupported('a pair enumeration needs a target (a, b)')
                     a, b = target.elts
-                    levels.append((a.id, ast.parse('range({}, {})'.format(lo, hi), mode='eval').body))
-                    levels.append((b.id, ast.parse('range({} + 1, {})'.format(a.id, hi), mode='eval').body))
+                    an, bn = a.id, b.id
+                    if getattr(f, 'shift', 0):
+                        # shifted pairs: the levels run over the unshifted pair (synthetic names); the targets are bound first thing inside
+                        an, bn = '__nest_u{}'.format(self.nest_n), '__nest_v{}'.format(self.nest_n)
+                        prefixes[len(levels) + 1] = ast.parse('{} = {} + ({})\n{} = {} + ({})'.format(a.id, an, f.shift, b.id, bn, f.shift)).body
+                    levels.append((an, ast.parse('range({}, {})'.format(lo, hi), mode='eval').body))
+                    levels.append((bn, ast.parse('range({} + 1, {})'.format(an, hi), mode='eval').body))
                     if f.pred is not None:
                         # a filtered enumeration: the pairs the predicate rejects are skipped
                         pn = '__nest_pred{}'.format(self.nest_n)
                         env[pn] = f.pred
-                        guards[len(levels) - 1] = ast.parse('{}({}, {})'.format(pn, a.id, b.id), mode='eval').body
+                        guards[len(levels) - 1] = ast.parse('{}({}, {})'.format(pn, an, bn), mode='eval').body
                 else:
                     if not isinstance(target, ast.Name):
                         raise Unsupported('range level needs a plain name target')
@@ -1622,6 +1629,8 @@ class Engine:
             node = None
             for lvl in range(len(levels) - 1, -1, -1):
                 tgt, it = levels[lvl]
+                if lvl in prefixes:
+                    body = [ast.copy_location(st, s) for st in prefixes[lvl]] + body
                 if lvl in guards:
                     body = [ast.If(test=guards[lvl], body=body, orelse=[], lineno=s.lineno, col_offset=s.col_offset,
                                    end_lineno=s.end_lineno, end_col_offset=s.end_col_offset)]
@@ -2553,6 +2562,26 @@ class Engine:
         raise Unsupported('slice (line {})'.format(node.lineno))
 
     def ev_ListComp(self, e, env):
+        if isinstance(e, ast.GeneratorExp) and len(e.generators) == 1 and not e.generators[0].ifs and isinstance(e.generators[0].target, ast.Tuple) \
+                and len(e.generators[0].target.elts) == 2 and all(isinstance(x, ast.Name) for x in e.generators[0].target.elts) \
+                and isinstance(e.elt, ast.Tuple) and len(e.elt.elts) == 2:
+            # ((u + c, v + c) for (u, v) in PAIRS) over a pair enumeration: the same enumeration, every pair shifted by the constant c
+            un, vn = [x.id for x in e.generators[0].target.elts]
+
+            def const_shift(x, name):
+                if isinstance(x, ast.Name) and x.id == name:
+                    return 0
+                if isinstance(x, ast.BinOp) and isinstance(x.op, (ast.Add, ast.Sub)) and isinstance(x.left, ast.Name) and x.left.id == name \
+                        and isinstance(x.right, ast.Constant) and type(x.right.value) is int:
+                    return x.right.value if isinstance(x.op, ast.Add) else -x.right.value
+                return None
+            cu, cv = const_shift(e.elt.elts[0], un), const_shift(e.elt.elts[1], vn)
+            if cu is not None and cu == cv and un != vn:
+                src = self.eval_iter(e.generators[0].iter, env)
+                if not isinstance(src, VCombs2) and not isinstance(src, VRange):
+                    src = as_nest_factor(src) or src
+                if isinstance(src, VCombs2):
+                    return VCombs2(src.lo, src.hi, src.pred, src.shift + cu)
         if len(e.generators) == 2 and not e.generators[0].ifs and not e.generators[1].ifs and isinstance(e.elt, ast.Tuple) \
                 and len(e.elt.elts) == 2 and all(isinstance(g.target, ast.Name) for g in e.generators) \
                 and [x.id if isinstance(x, ast.Name) else None for x in e.elt.elts] == [g.target.id for g in e.generators]:
@@ -3910,7 +3939,7 @@ def sf_blockcall(eng, node, off, n2, index):
 
 SPEC_FUNCS = {
     'blockcall': sf_blockcall,
-    'combs2': lambda eng, node, lo, hi: VCombs2(toz(lo), toz(hi)), 'cvar': _wrap(specs.cvar), 'degsum': _wrap(specs.degsum), 'gadj': _wrap(specs.gadj), 'pvar': _wrap(specs.pvar), 'isqf': _wrap(specs.isqf), 'pairlits': _wrap(specs.pairlits), 'aps': _wrap(specs.aps), 'cntstar': _wrap(specs.cntstar), 'imem': _wrap(specs.imem), 'imemp': _wrap(specs.imemp), 'sqr': _wrap(specs.sqr), 'mhas': lambda eng, node, m, k: z3.Select(m.present, _term(k)), 'mget': lambda eng, node, m, k: z3.Select(m.val, _term(k)), 'glo': lambda eng, node, g, i: z3.Select(g.lo, toz(i)), 'ghi': lambda eng, node, g, i: z3.Select(g.hi, toz(i)),
+    'combs2': lambda eng, node, lo, hi: VCombs2(toz(lo), toz(hi)), 'cvar': _wrap(specs.cvar), 'degsum': _wrap(specs.degsum), 'gadj': _wrap(specs.gadj), 'pvar': _wrap(specs.pvar), 'isqf': _wrap(specs.isqf), 'pairlits': _wrap(specs.pairlits), 'aps': _wrap(specs.aps), 'cntstar': _wrap(specs.cntstar), 'imem': _wrap(specs.imem), 'bsel': _wrap(specs.bsel), 'imemp': _wrap(specs.imemp), 'sqr': _wrap(specs.sqr), 'mhas': lambda eng, node, m, k: z3.Select(m.present, _term(k)), 'mget': lambda eng, node, m, k: z3.Select(m.val, _term(k)), 'glo': lambda eng, node, g, i: z3.Select(g.lo, toz(i)), 'ghi': lambda eng, node, g, i: z3.Select(g.hi, toz(i)),
     'gsingle': lambda eng, node, g, i: z3.Select(g.single, toz(i)), 'cnb': _wrap(specs.cnb), 'isorted': _wrap(specs.isorted), 'nbj': _wrap(specs.nbj), 'nbv': _wrap(specs.nbv), 'lnbrs': _wrap(specs.lnbrs),
     'mapcall': sf_mapcall, 'mrow': _wrap(specs.mrow), 'mcol': _wrap(specs.mcol),
     'evnest': _wrap(specs.evnest), 'dedges': _wrap(specs.dedges),
